@@ -23,7 +23,7 @@ MANIFEST = {
     "design_ref": "DESIGN.md §5 C23",
 }
 EXPLANATION = MANIFEST["level_text"]
-TRUSTED = ["pyvc VC generator (ordered dict = insertion-ordered sequence of distinct keys)", "z3 5.1.0 / cvc5 1.0.3", "threading.Lock gives mutual exclusion; CPython attribute loads/stores are atomic"]
+TRUSTED = ["pyvc VC generator (ordered dict = insertion-ordered sequence of distinct keys)", "z3 5.1.0 / cvc5 1.4.0", "threading.Lock gives mutual exclusion; CPython attribute loads/stores are atomic"]
 ASSUMPTIONS = [
     "time values are mathematical numbers: float rounding in now + ttl_seconds is ignored",
     "the `now` a call uses was read from the clock no later than the call's critical section (it is read just before taking the lock)",
